@@ -171,6 +171,19 @@ def theorems_in(rel_file):
     return names
 
 
+def enclosing_theorem(rel_file, line):
+    """Name of the last theorem/lemma/def declared at or before `line` of a Lean file."""
+    try:
+        src = open(os.path.join(LEAN, rel_file)).read().split("\n")
+    except OSError:
+        return None
+    for i in range(min(line, len(src)) - 1, -1, -1):
+        m = re.match(r"^\s*(?:@\[[^\]]*\]\s*)?(?:private\s+|protected\s+)?(?:theorem|lemma|def|instance|example)\s*([^\s:({\[]*)", src[i])
+        if m:
+            return "%s (%s:%d)" % (m.group(1) or "example", rel_file, i + 1)
+    return None
+
+
 def lean_obligations(prop, tier, log):
     """Build the property's Lean targets and audit its theorems.
 
@@ -182,8 +195,10 @@ def lean_obligations(prop, tier, log):
     failures = []
     checker_cmd = "cd %s && lake build %s && lake env lean .audit/%s.lean" % (LEAN, " ".join(targets), prop["id"])
     with LakeLock():
-        rc, out = sh(["lake", "build"] + targets, cwd=LEAN, timeout=3600)
-    log.write("== lake build %s (rc=%d)\n%s\n" % (" ".join(targets), rc, out[-6000:]))
+        drc, dout = sh(["lake", "build", L["exe"]], cwd=LEAN, timeout=3600)
+        rc, out = sh(["lake", "build"] + targets[:-1], cwd=LEAN, timeout=3600)
+    log.write("== lake build %s (rc=%d)\n%s\n" % (L["exe"], drc, dout[-6000:]))
+    log.write("== lake build %s (rc=%d)\n%s\n" % (" ".join(targets[:-1]), rc, out[-6000:]))
     thms = []
     for f in spec_files:
         if os.path.exists(os.path.join(LEAN, f)):
@@ -197,11 +212,21 @@ def lean_obligations(prop, tier, log):
             thms.append(r)
     obligations = len(thms) + 1
     axioms = {}
+    if drc != 0:
+        errs = [l for l in dout.split("\n") if "error" in l][:8]
+        failures.append("the model driver does not build: " + " | ".join(errs))
     if rc != 0:
         errs = [l for l in out.split("\n") if "error" in l][:8]
-        failures.append("lake build failed: " + " | ".join(errs))
+        named = []
+        for m in re.finditer(r"error: (\S+\.lean):(\d+):", out):
+            t = enclosing_theorem(m.group(1), int(m.group(2)))
+            if t and t not in named:
+                named.append(t)
+        failures.append("lake build failed%s: %s" % (
+            (" in theorem(s) " + ", ".join(named)) if named else "", " | ".join(errs)))
+    if rc != 0 or drc != 0:
         return dict(obligations=obligations, discharged=0, failures=failures, theorems=thms, axioms=axioms,
-                    checker_cmd=checker_cmd, build_ok=False)
+                    checker_cmd=checker_cmd, build_ok=(drc == 0))
     # forbidden constructs in everything the spec and the driver import
     files = []
     for f in spec_files + [L.get("driver_file", "Driver/%s.lean" % prop["id"])]:
